@@ -399,7 +399,11 @@ func (c07) Eval(env *Env, c *Case) []Violation {
 	}
 	init := c.InitialState()
 	orig := goFiles(init)
-	r := env.Run(c.Spec)
+	// the reference run is fault-free; a replayed case carries the one fault plan
+	// that the fault families below then try
+	baseSpec := c.Spec.Clone()
+	baseSpec.Faults = nil
+	r := env.Run(baseSpec)
 	if r.Outcome != OutExit {
 		env.Probe("run-did-not-exit")
 		return nil
